@@ -106,6 +106,10 @@ type Scenario struct {
 	// NoReports: no error reporting channel is installed (and reporting to stderr is off, as always): panics are still
 	// contained, returned as panic errors with value and stack trace, and remembered as the last reported error.
 	NoReports bool `json:"no_reports,omitempty"`
+	// SlowItems: work items take a good part of the stop timeout to return after cancellation. The promptness clause
+	// of C05 (which assumes items that return within milliseconds) is not applied; a run in which an item needed more
+	// than half the stop timeout (a starved process) is not judged at all.
+	SlowItems bool `json:"slow_items,omitempty"`
 	// ManageAfterFailedStart: the steps after a failed Start are executed instead of skipped (retrying with a
 	// management pass is what a caller with module management does).
 	ManageAfterFailedStart bool `json:"manage_after_failed_start,omitempty"`
